@@ -5,6 +5,7 @@ import (
 	"errors"
 	"fmt"
 	"io/fs"
+	"os"
 	"path/filepath"
 
 	"github.com/pgavlin/dawn/internal/mvs"
@@ -46,13 +47,17 @@ func (proj *Project) loadConfigFile(path string) error {
 func (proj *Project) loadConfig() (err error) {
 	for _, name := range []string{"dawn.toml", ".dawnconfig"} {
 		path := filepath.Join(proj.root, name)
-		if err = proj.loadConfigFile(path); err == nil {
-			proj.configPath = path
-			return nil
+
+		// Only a missing file sends us on to the next name. A not-exist error from further down the load (e.g. from
+		// the download cache while the build list is computed) is an error of this file.
+		if _, err = os.Stat(path); errors.Is(err, fs.ErrNotExist) {
+			continue
 		}
-		if !errors.Is(err, fs.ErrNotExist) {
+		if err = proj.loadConfigFile(path); err != nil {
 			return err
 		}
+		proj.configPath = path
+		return nil
 	}
 	return err
 }
